@@ -58,7 +58,7 @@ func c02ReadScript(prefix string, maxOut int) c02Script {
 		outcome:  vrt.Int(prefix+"outcome", 0, 2),
 		nOut:     vrt.Int(prefix+"nout", 0, maxOut),
 		panicVal: vrt.Int(prefix+"panicval", 0, 2),
-		nMw:      vrt.Int(prefix+"nmw", 0, 2),
+		nMw:      vrt.Int(prefix+"nmw", 0, vrt.Bound("maxmw", 2)),
 		mwAdds:   vrt.Bool(prefix + "mwadds"),
 		pubOut:   vrt.Int(prefix+"pubout", 0, 2),
 	}
@@ -160,7 +160,7 @@ func c02Check(prefix string, s c02Script, pubKind int, run *c02Run) {
 // HarnessC02Settle: one message through the real handleMessage for every handler / publisher behaviour.
 func HarnessC02Settle() {
 	pubKind := vrt.Int("pubkind", 0, 2)
-	s := c02ReadScript("", 2)
+	s := c02ReadScript("", vrt.Bound("maxout", 2))
 	msg := NewMessage("m", nil)
 	pub := &scriptedPublisher{consumed: msg, outcome: func(int) int { return s.pubOut }}
 	h := c02Handler(pubKind, pub)
